@@ -10,6 +10,7 @@ called concretely when all arguments are concrete (argparse, str.format, ...).
 import ast
 import builtins
 import inspect
+import re
 import textwrap
 
 import z3
@@ -125,6 +126,13 @@ class SList:
         return len(self.cells)
 
 
+class SDict:
+    """dict with concrete or symbolic integer keys: association list, newest binding last"""
+
+    def __init__(self, items=()):
+        self.items = list(items)
+
+
 class Stream:
     """input file: symbolic cells, concrete or symbolic length; read(n) returns min(n, remaining) cells"""
 
@@ -191,9 +199,10 @@ class SentinelIter:
 
 
 class Closure:
-    def __init__(self, node, env, interp):
+    def __init__(self, node, env, interp, defaults=None):
         self.node = node
         self.env = env
+        self.defaults = defaults or {}  # parameter name -> value (evaluated once, when the def statement ran)
 
 
 class Path:
@@ -204,6 +213,7 @@ class Path:
         self.dec = list(decisions)  # list of (value, forced)
         self.i = 0
         self.pc = list(premises)
+        self.state = {}  # per-path copies of process-lifetime objects (mutable default arguments of the tool's functions)
 
     def branch(self, cond):
         c = z3.simplify(cond)
@@ -345,6 +355,11 @@ class Interp:
     def e_List(self, n, env):
         return SList([self.ev(x, env) for x in n.elts])
 
+    def e_Dict(self, n, env):
+        if any(k is None for k in n.keys):
+            raise HarnessGap("dict unpacking")
+        return SDict([(self.ev(k, env), self.ev(v, env)) for k, v in zip(n.keys, n.values)])
+
     def e_Tuple(self, n, env):
         return tuple(self.ev(x, env) for x in n.elts)
 
@@ -355,7 +370,7 @@ class Interp:
         o = self.ev(n.value, env)
         if isinstance(o, (Stream, Sink)) and n.attr == "name":
             return o.name
-        if isinstance(o, (Stream, Sink, SList, Bytes, Writer)) or (isinstance(o, str) and n.attr in ("format", "join")):
+        if isinstance(o, (Stream, Sink, SList, SDict, Bytes, Writer)) or (isinstance(o, str) and n.attr in ("format", "join")):
             return ("attr", o, n.attr)
         if isinstance(o, Intrinsic):
             if o.fn is i_int and n.attr == "from_bytes":
@@ -532,6 +547,21 @@ class Interp:
         return self.arith(type(n.op).__name__, self.ev(n.left, env), self.ev(n.right, env))
 
     def compare(self, op, a, b):
+        if op in ("In", "NotIn"):
+            if isinstance(b, SDict):
+                found = self.dict_find(b, a) is not None
+            elif isinstance(b, (SList, Bytes)) or (isinstance(b, (list, tuple, range)) and is_sym(a)):
+                cells_ = b.cells if isinstance(b, (SList, Bytes)) else list(b)
+                if isinstance(a, Bytes) and len(a) == 1:
+                    a = a.cells[0]
+                if not isinstance(a, (int, Sym)):
+                    raise HarnessGap("membership of " + type(a).__name__)
+                found = any(self.truth(self.compare("Eq", c, a)) for c in cells_ if isinstance(c, (int, Sym)))
+            elif is_sym(a) or isinstance(a, (Bytes, SList)):
+                raise HarnessGap("membership in " + type(b).__name__)
+            else:
+                found = a in b
+            return found if op == "In" else not found
         if isinstance(a, Bytes) and isinstance(b, Bytes):
             if op in ("Eq", "NotEq"):
                 if len(a) != len(b):
@@ -584,6 +614,11 @@ class Interp:
                 return type(o)(o.cells[lo:hi])
             return o[lo:hi]
         i = self.ev(n.slice, env)
+        if isinstance(o, SDict):
+            j = self.dict_find(o, i)
+            if j is None:
+                raise Failure("KeyError", "key not in dict")
+            return o.items[j][1]
         if is_sym(i):
             return self.select(o, i)
         if isinstance(o, (Bytes, SList)):
@@ -635,7 +670,7 @@ class Interp:
     def call(self, f, args, kwargs):
         if isinstance(f, Closure):
             fn = f.node
-            loc = {}
+            loc = dict(f.defaults)
             names = [a.arg for a in fn.args.args]
             for a, v in zip(names, args):
                 loc[a] = v
@@ -661,7 +696,7 @@ class Interp:
             node, _ = func_ast(f)
             sub = Interp(self.path, f.__globals__, self.intr, self.unwind, self.range_unwind)
             sub.stats = self.stats
-            return sub.call(Closure(node, [], sub), args, kwargs)
+            return sub.call(Closure(node, [], sub, self.real_defaults(f)), args, kwargs)
         if getattr(f, "__name__", "") == "unpack" and getattr(f, "__module__", "") in ("_struct", "struct"):
             return i_struct_unpack(self, *args)
         symbolic = any(isinstance(a, (Sym, Bytes, SList, Stream, Sink, SymFrac, z3.ExprRef)) for a in list(args) + list(kwargs.values()))
@@ -672,7 +707,57 @@ class Interp:
         except SystemExit as e:
             raise Failure("exit", str(e.code))
 
+    def real_defaults(self, f):
+        """default arguments of one of the tool's own functions.  They are evaluated once per process; a mutable one is a
+        process-lifetime object, modelled as one copy of its definition-time value per symbolic path (= a fresh process;
+        state carried from one conversion to the next is the subject of the history obligations, not of this model)"""
+        key = ("defaults", f.__module__, f.__qualname__)
+        if key not in self.path.state:
+            import inspect as _i
+
+            out = {}
+            for nm, prm in _i.signature(f).parameters.items():
+                if prm.default is _i.Parameter.empty:
+                    continue
+                d = prm.default
+                if isinstance(d, dict):
+                    d = SDict(list(d.items()))
+                elif isinstance(d, (list, bytearray)):
+                    d = SList(list(d))
+                elif not isinstance(d, (int, float, str, bytes, bool, tuple, type(None))):
+                    raise HarnessGap(f"default argument {nm}={type(d).__name__} of {f.__qualname__}")
+                out[nm] = d
+            self.path.state[key] = out
+        return self.path.state[key]
+
+    def dict_find(self, d, k):
+        """index of the newest binding of k in d (forking on symbolic equalities), or None"""
+        for j in range(len(d.items) - 1, -1, -1):
+            kj = d.items[j][0]
+            if isinstance(kj, (int, Sym)) and isinstance(k, (int, Sym)):
+                if self.truth(self.compare("Eq", kj, k)):
+                    return j
+            elif isinstance(kj, (Bytes, SList, SDict)) or isinstance(k, (Bytes, SList, SDict)):
+                raise HarnessGap("dict key of a modelled sequence type")
+            elif kj == k:
+                return j
+        return None
+
     def method(self, o, name, args, kwargs):
+        if isinstance(o, SDict):
+            if name == "get":
+                j = self.dict_find(o, args[0])
+                return o.items[j][1] if j is not None else (args[1] if len(args) > 1 else None)
+            if name == "clear":
+                o.items.clear()
+                return None
+            if name == "setdefault":
+                j = self.dict_find(o, args[0])
+                if j is None:
+                    o.items.append((args[0], args[1] if len(args) > 1 else None))
+                    return o.items[-1][1]
+                return o.items[j][1]
+            raise HarnessGap("dict." + name)
         if isinstance(o, Stream):
             if name == "read":
                 n = args[0] if args else None
@@ -773,7 +858,12 @@ class Interp:
         pass
 
     def s_FunctionDef(self, s, env):
-        env[0][s.name] = Closure(s, env, self)
+        names = [a.arg for a in s.args.args]
+        defaults = {nm: self.ev(d, env) for nm, d in zip(names[len(names) - len(s.args.defaults):], s.args.defaults)}
+        for a, d in zip(s.args.kwonlyargs, s.args.kw_defaults):
+            if d is not None:
+                defaults[a.arg] = self.ev(d, env)
+        env[0][s.name] = Closure(s, env, self, defaults)
 
     def assign(self, t, v, env):
         if isinstance(t, ast.Name):
@@ -785,9 +875,27 @@ class Interp:
                 raise Failure("ValueError", "unpack")
             for tt, vv in zip(t.elts, vals):
                 self.assign(tt, vv, env)
+        elif isinstance(t, ast.Subscript) and isinstance(t.slice, ast.Slice):
+            o = self.ev(t.value, env)
+            if not isinstance(o, SList):
+                raise HarnessGap("slice assignment on " + type(o).__name__)
+            if t.slice.step is not None:
+                raise HarnessGap("slice assignment with a step")
+            lo = self.ev(t.slice.lower, env) if t.slice.lower else None
+            hi = self.ev(t.slice.upper, env) if t.slice.upper else None
+            if is_sym(lo) or is_sym(hi):
+                raise HarnessGap("slice assignment with symbolic bounds")
+            o.cells[lo:hi] = v.cells if isinstance(v, (SList, Bytes)) else list(self.iterate(v))
         elif isinstance(t, ast.Subscript):
             o = self.ev(t.value, env)
             i = self.ev(t.slice, env)
+            if isinstance(o, SDict):
+                j = self.dict_find(o, i)
+                if j is None:
+                    o.items.append((i, v))
+                else:
+                    o.items[j] = (o.items[j][0], v)
+                return
             if not isinstance(o, SList):
                 raise HarnessGap("item assignment on " + type(o).__name__)
             if is_sym(i):
@@ -1035,12 +1143,40 @@ def i_int(I, x, base=None):
     return int(x) if base is None else int(x, base)
 
 
+def _minmax(ismin):
+    def f(I, *a, **kw):
+        if kw:
+            raise HarnessGap("min/max with keyword arguments")
+        vals = a
+        if len(a) == 1:
+            vals = a[0].cells if isinstance(a[0], (SList, Bytes)) else list(a[0])
+            if not vals:
+                raise Failure("ValueError", "min()/max() of an empty sequence")
+        if not all(isinstance(v, (int, Sym)) for v in vals):
+            if any(isinstance(v, (Sym, Bytes, SList)) for v in vals):
+                raise HarnessGap("min/max of non-integers")
+            return (min if ismin else max)(vals)
+        acc = vals[0]
+        for v in vals[1:]:
+            if not is_sym(acc) and not is_sym(v):
+                acc = (min if ismin else max)(acc, v)
+                continue
+            (la, ha), (lb, hb) = rng(acc), rng(v)
+            ta, tb = term(acc), term(v)
+            c = (tb < ta) if ismin else (tb > ta)
+            acc = Sym(z3.If(c, tb, ta), min(la, lb) if ismin else max(la, lb), min(ha, hb) if ismin else max(ha, hb))
+        return acc
+
+    return f
+
+
 def i_struct_unpack(I, fmt, data):
     """struct.unpack for the byte / half-word codes b B h H (and x) with an optional byte-order character"""
     order = ">"
     if fmt and fmt[0] in "<>=!@":
         order = "<" if fmt[0] == "<" else ">" if fmt[0] in ">!" else "<"  # native on the machines this runs on: little endian
         fmt = fmt[1:]
+    fmt = re.sub(r"(\d+)([a-zA-Z?])", lambda m: m.group(2) * int(m.group(1)), fmt.replace(" ", ""))
     cells_ = list(data.cells) if isinstance(data, (Bytes, SList)) else list(data)
     need = sum({"b": 1, "B": 1, "x": 1, "h": 2, "H": 2}.get(ch, 99) for ch in fmt)
     if need > 90:
@@ -1145,6 +1281,8 @@ BASE_INTRINSICS = {
     "bytearray": Intrinsic(i_bytearray),
     "bytes": Intrinsic(i_pack),
     "list": Intrinsic(i_list),
+    "min": Intrinsic(_minmax(True)),
+    "max": Intrinsic(_minmax(False)),
 }
 
 
